@@ -33,9 +33,18 @@ pub enum Prim {
     ChecksumNonCanonical,
     ChecksumMalformed,
     ChecksumEmpty,
+    /// one algorithm twice, spelled identically, otherwise canonical (lower case, sorted, even hex)
+    ChecksumDup,
+    /// one algorithm twice in different letter case
+    ChecksumDupCase,
+    ChecksumOddHex,
+    /// lower case and well-formed but not sorted
+    ChecksumUnsorted,
+    /// an entry appended to whatever checksum is there (or a fresh one): repeats `a` if present
+    ChecksumAppendA,
 }
 
-pub const PRIMS: [Prim; 17] = [
+pub const PRIMS: [Prim; 22] = [
     Prim::Nop,
     Prim::ClearName,
     Prim::SetName,
@@ -53,6 +62,11 @@ pub const PRIMS: [Prim; 17] = [
     Prim::ChecksumNonCanonical,
     Prim::ChecksumMalformed,
     Prim::ChecksumEmpty,
+    Prim::ChecksumDup,
+    Prim::ChecksumDupCase,
+    Prim::ChecksumOddHex,
+    Prim::ChecksumUnsorted,
+    Prim::ChecksumAppendA,
 ];
 
 #[derive(Clone, Debug, Default, PartialEq, Eq, Hash, PartialOrd, Ord)]
@@ -142,6 +156,23 @@ fn apply_real(p: Prim, parts: &mut PurlParts) {
         Prim::ChecksumEmpty => {
             let _ = parts.qualifiers.insert("Checksum", "");
         },
+        Prim::ChecksumDup => {
+            let _ = parts.qualifiers.insert("checksum", "a:00,a:11");
+        },
+        Prim::ChecksumDupCase => {
+            let _ = parts.qualifiers.insert("checksum", "a:00,A:11");
+        },
+        Prim::ChecksumOddHex => {
+            let _ = parts.qualifiers.insert("checksum", "a:000");
+        },
+        Prim::ChecksumUnsorted => {
+            let _ = parts.qualifiers.insert("checksum", "b:00,a:11");
+        },
+        Prim::ChecksumAppendA => {
+            let old = parts.qualifiers.get("checksum").map(str::to_owned).unwrap_or_default();
+            let new = if old.is_empty() { "a:22".to_owned() } else { format!("{old},a:22") };
+            let _ = parts.qualifiers.insert("checksum", new.as_str());
+        },
     }
 }
 
@@ -192,6 +223,23 @@ fn apply_ref(p: Prim, r: &mut RefParts) {
         },
         Prim::ChecksumEmpty => {
             r.quals.insert("checksum".into(), "".into());
+        },
+        Prim::ChecksumDup => {
+            r.quals.insert("checksum".into(), "a:00,a:11".into());
+        },
+        Prim::ChecksumDupCase => {
+            r.quals.insert("checksum".into(), "a:00,A:11".into());
+        },
+        Prim::ChecksumOddHex => {
+            r.quals.insert("checksum".into(), "a:000".into());
+        },
+        Prim::ChecksumUnsorted => {
+            r.quals.insert("checksum".into(), "b:00,a:11".into());
+        },
+        Prim::ChecksumAppendA => {
+            let old = r.quals.get("checksum").cloned().unwrap_or_default();
+            let new = if old.is_empty() { "a:22".to_owned() } else { format!("{old},a:22") };
+            r.quals.insert("checksum".into(), new);
         },
     }
 }
@@ -249,7 +297,7 @@ pub fn programs(tier: Tier) -> Vec<Program> {
             if a == Prim::Nop || b == Prim::Nop {
                 continue;
             }
-            let key = |p: Prim| matches!(p, Prim::ClearName | Prim::InsertEmptyQual | Prim::ChecksumNonCanonical | Prim::ChecksumMalformed | Prim::ChecksumEmpty | Prim::EmptyFirstValue);
+            let key = |p: Prim| matches!(p, Prim::ClearName | Prim::InsertEmptyQual | Prim::ChecksumNonCanonical | Prim::ChecksumMalformed | Prim::ChecksumEmpty | Prim::EmptyFirstValue | Prim::ChecksumCanonical | Prim::ChecksumAppendA);
             if two || (key(a) && key(b)) {
                 hooks.push(vec![a, b]);
             }
@@ -543,7 +591,7 @@ pub fn explore(tier: Tier) -> (Acc, Value, u64, u64) {
             inputs.push(s);
         }
     }
-    for extra in ["pkg:%74/n", "pkg:%54/n@1", "pkg:t%2Ex/n", "pkg:t%2ex/ns/n?k=v", "pkg:%21/n", "pkg:t/n?checksum=B:FF,a:0A", "pkg:t/n?checksum=zz", "pkg:t/n?k=v&K2=w#a/../b", "pkg:t/ns/n@1?k=&l=x", "pkg:t/%80", "pkg:t/n?k", "pkg:!/n", "pkg:t", "t/n", "pkg:t/n@%zz", "pkg:t/a%2Fb/n"] {
+    for extra in ["pkg:%74/n", "pkg:%54/n@1", "pkg:t%2Ex/n", "pkg:t%2ex/ns/n?k=v", "pkg:%21/n", "pkg:t/n?checksum=B:FF,a:0A", "pkg:t/n?checksum=zz", "pkg:t/n?checksum=a:00", "pkg:t/n?checksum=b:00&k=v", "pkg:t/n?k=v&K2=w#a/../b", "pkg:t/ns/n@1?k=&l=x", "pkg:t/%80", "pkg:t/n?k", "pkg:!/n", "pkg:t", "t/n", "pkg:t/n@%zz", "pkg:t/a%2Fb/n"] {
         inputs.push(extra.to_owned());
     }
     let binputs = builder_inputs();
